@@ -213,7 +213,10 @@ ChkFont(e) ==
       maxp          |-> /\ W(e.maxp, 2) = n
                         /\ IF e.fkind = "ttf" THEN Len(e.maxp) = 16 /\ W(e.maxp, 0) = 1 /\ W(e.maxp, 1) = 0
                                               ELSE Len(e.maxp) = 3 /\ W(e.maxp, 0) = 0 /\ W(e.maxp, 1) = 20480,
-      os2_avgwidth  |-> AvgOK(SW(e.os2, 1), e.wlo, e.whi),
+      \* xAvgCharWidth from the advance widths the file itself records in hmtx (a fractional width of
+      \* the font value may become either neighbouring integer in hmtx - the unchanged library
+      \* truncates - but every table of the file has to be derived from the same integers)
+      os2_avgwidth  |-> AvgOK(SW(e.os2, 1), d.w, d.w),
       os2_firstlast |-> Len(e.codes) > 0 => /\ W(e.os2, 32) = FirstCharDef(ToSet(e.codes))
                                             /\ W(e.os2, 33) = LastCharDef(ToSet(e.codes)),
       \* scalar header data of the font value inside the file
@@ -225,6 +228,15 @@ ChkFont(e) ==
       file_post     |-> /\ e.f.aexact => (W(e.post, 2) = e.f.ahi /\ W(e.post, 3) = e.f.alo)
                         /\ SW(e.post, 4) = e.f.upos /\ SW(e.post, 5) = e.f.uthick,
       file_times    |-> JudgeTime(e.f.czero, e.f.c, e.head, 10) /\ JudgeTime(e.f.mzero, e.f.m, e.head, 14),
+      maxp_loca     |-> e.fkind = "ttf" => e.locaN = n,
+      \* second cycle: Write(Read(Write(F))) declares the same derived values as Write(F)
+      cycle_stable  |-> LET p == e.prev IN
+                        /\ Len(p.hhea) = HheaWords /\ Len(p.head) = HeadWords /\ Len(p.os2) >= 39
+                        /\ \A k \in {5, 6, 7, 8, 17} : W(p.hhea, k) = W(e.hhea, k)
+                        /\ p.hm = e.hm
+                        /\ \A k \in 18..21 : W(p.head, k) = W(e.head, k)
+                        /\ \A k \in {1, 32, 33} : W(p.os2, k) = W(e.os2, k)
+                        /\ p.maxp = e.maxp,
       glyf_boxes    |-> e.fkind = "ttf" =>
                           \A i \in 1..n : IF e.fileEmpty[i] THEN EmptyBox(box[i]) ELSE e.fileBox[i] = box[i],
       \* second reader of the same file
